@@ -485,6 +485,9 @@ func (s *TermStore) Bin(op Op, a, b *Term) *Term {
 		if a == b {
 			return a
 		}
+		if m := s.mergeDisjoint(a, b); m != nil {
+			return m
+		}
 	case OpXor:
 		if a.IsConst() {
 			a, b = b, a
@@ -555,7 +558,124 @@ func (s *TermStore) Concat(hi, lo *Term) *Term {
 	if hi.Op == OpExtract && lo.Op == OpExtract && hi.A[0] == lo.A[0] && hi.P1 == lo.P0+1 {
 		return s.Extract(hi.A[0], hi.P0, lo.P1)
 	}
+	// canonical nesting: left-associated
+	if lo.Op == OpConcat {
+		return s.Concat(s.Concat(hi, lo.A[0]), lo.A[1])
+	}
+	// zero high part is a zero extension
+	if hi.IsConst() && hi.C == 0 {
+		return s.ZExt(lo, w)
+	}
+	if hi.Op == OpZExt {
+		return s.ZExt(s.Concat(hi.A[0], lo), w)
+	}
+	// concat(x, extract(m,l,y)) where x ends with extract(h,m+1,y): merge at the seam
+	if hi.Op == OpConcat && hi.A[1].Op == OpExtract && lo.Op == OpExtract && hi.A[1].A[0] == lo.A[0] && hi.A[1].P1 == lo.P0+1 {
+		return s.Concat(hi.A[0], s.Extract(lo.A[0], hi.A[1].P0, lo.P1))
+	}
 	return s.mk(OpConcat, w, 0, 0, hi, lo)
+}
+
+// seg is a piece of a word, most significant first; t == nil means zero bits.
+type seg struct {
+	w int
+	t *Term
+}
+
+func (s *TermStore) segsOf(t *Term, out []seg) []seg {
+	switch t.Op {
+	case OpConst:
+		if t.C == 0 {
+			return append(out, seg{t.W, nil})
+		}
+	case OpConcat:
+		out = s.segsOf(t.A[0], out)
+		return s.segsOf(t.A[1], out)
+	case OpZExt:
+		out = append(out, seg{t.W - t.A[0].W, nil})
+		return s.segsOf(t.A[0], out)
+	}
+	return append(out, seg{t.W, t})
+}
+
+func hasZeroSeg(t *Term) bool {
+	switch t.Op {
+	case OpZExt:
+		return true
+	case OpConcat:
+		return hasZeroSeg(t.A[0]) || hasZeroSeg(t.A[1])
+	case OpConst:
+		return t.C == 0
+	}
+	return false
+}
+
+// mergeDisjoint returns a|b as a concatenation when the operands occupy disjoint
+// bit ranges (byte-assembly code: x<<24 | y<<16 | ...), else nil. The result is
+// canonical, so differently written assemblies of the same bytes hash-cons to
+// the same term.
+func (s *TermStore) mergeDisjoint(a, b *Term) *Term {
+	if !hasZeroSeg(a) || !hasZeroSeg(b) {
+		return nil
+	}
+	sa := s.segsOf(a, nil)
+	sb := s.segsOf(b, nil)
+	var pieces []seg
+	i, j := 0, 0
+	var ra, rb seg // remaining parts of the current segments
+	take := func(x seg, n int) (head, rest seg) {
+		if n == x.w {
+			return x, seg{}
+		}
+		if x.t == nil {
+			return seg{n, nil}, seg{x.w - n, nil}
+		}
+		return seg{n, s.Extract(x.t, x.w-1, x.w-n)}, seg{x.w - n, s.Extract(x.t, x.w-n-1, 0)}
+	}
+	for {
+		if ra.w == 0 {
+			if i >= len(sa) {
+				break
+			}
+			ra = sa[i]
+			i++
+		}
+		if rb.w == 0 {
+			if j >= len(sb) {
+				break
+			}
+			rb = sb[j]
+			j++
+		}
+		n := ra.w
+		if rb.w < n {
+			n = rb.w
+		}
+		if ra.t != nil && rb.t != nil {
+			return nil
+		}
+		var ha, hb seg
+		ha, ra = take(ra, n)
+		hb, rb = take(rb, n)
+		if ha.t != nil {
+			pieces = append(pieces, ha)
+		} else {
+			pieces = append(pieces, hb)
+		}
+	}
+	var acc *Term
+	for _, p := range pieces {
+		pt := p.t
+		if pt == nil {
+			pt = K(p.w, 0)
+		}
+		if acc == nil {
+			acc = pt
+		} else {
+			acc = s.Concat(acc, pt)
+		}
+	}
+	return acc
 }
 
 // Extract bits hi..lo (inclusive).
